@@ -280,7 +280,7 @@ def run_cell_shard(prop: str, cell_id: str, tier: str, base_seed: int, shard: in
             }
 
     # fixed cases first (shard 0 only), outside Hypothesis
-    if shard == 0:
+    if shard == 0 and not os.environ.get("VF_NO_FIXED"):
         for case in cell.fixed_cases:
             try:
                 _exec_case(prop, cell, case, st, known, budget)
